@@ -236,6 +236,7 @@ func partPTS() {
 		}
 		run.Eval(evals)
 		run.AddInt("pts_sequences", evals)
+		run.AddInt("pts_sequences_nontrivial", nontriv)
 		run.AddInt("pts_decode_calls", evals*int64(it.d+1+it.skip))
 		if it.join {
 			run.AddInt("pts_decode_calls", evals*int64(len(menuOffsets)*len(menuRates)))
